@@ -112,9 +112,13 @@ def batch(job):
             res["samples"].append(jsonable(ctx.sample))
         if every and i % every == 0:
             res["digests"][str(i)] = ctx.digest()
-        if viol is not None and len(res["violations"]) < 8:
-            viol.update({"index": i, "tape": list(tape.used), "case": jsonable(ctx.case)})
-            res["violations"].append(viol)
+        if viol is not None:
+            # at most 8 records per violation kind (a frequent known finding must not crowd
+            # out a different violation)
+            nk = sum(1 for v in res["violations"] if v.get("kind") == viol.get("kind"))
+            if nk < 8 and len(res["violations"]) < 80:
+                viol.update({"index": i, "tape": list(tape.used), "case": jsonable(ctx.case)})
+                res["violations"].append(viol)
         i += step
     res["next"] = i
     faulthandler.cancel_dump_traceback_later()
